@@ -201,7 +201,9 @@ def run_suite(suite, prop, cases, driver_ok, stats, known, search_only=False):
     try:
         for c in cases:
             try:
-                r = suite.impl(c)
+                r = _impl_timed(suite, c)
+            except CaseTimeout:
+                r = {"timeout": True, "model": {"error": "timeout"}, "obs": {}}
             except Exception as e:  # harness failure on this case = infrastructure problem
                 r = {"harness_exception": f"{type(e).__name__}: {e}", "tb": traceback.format_exc()[-800:]}
             results.append(r)
@@ -441,10 +443,32 @@ def main():
     return exit_code
 
 
+class CaseTimeout(BaseException):
+    pass
+
+
+def _impl_timed(suite, case):
+    """run one case of the real code under a watchdog: a non-terminating implementation must not hang the check"""
+    import signal
+    limit = getattr(suite, "case_timeout", 20)
+
+    def on_alarm(signum, frame):
+        raise CaseTimeout()
+    old = signal.signal(signal.SIGALRM, on_alarm)
+    signal.setitimer(signal.ITIMER_REAL, limit)
+    try:
+        return suite.impl(case)
+    finally:
+        signal.setitimer(signal.ITIMER_REAL, 0)
+        signal.signal(signal.SIGALRM, old)
+
+
 def _impl1(suite, case):
     suite.setup()
     try:
-        return suite.impl(case)
+        return _impl_timed(suite, case)
+    except CaseTimeout:
+        return {"timeout": True, "model": {"error": "timeout"}, "obs": {}}
     except Exception as e:
         return {"harness_exception": str(e)}
     finally:
